@@ -48,9 +48,10 @@ Definition corr (c : case) : bool :=
   && GoProbe.C21.Corr.fmap_matches (m6 (cs_core s)) (k_v6 c)
   && GoProbe.C21.Corr.all2 block_matches (rev (o_rot (cs_core s))) (k_blocks c).
 
-(* ---- the property on the observed data. The schedules of this harness deliver no packet inside a
-   lock window, so the packets accounted to the k-th written block are those between the (k-1)-th and
-   the k-th rotation; "parsed" is decided by the parser specification proved in C19 (parse_pkt). *)
+(* ---- the property on the observed data. Packets fetched while a lock is held are listed after the
+   window's actions (they reach the flow log after the unlock), so the packets accounted to the k-th
+   written block are those listed between the (k-1)-th and the k-th rotation; "parsed" is decided by the
+   parser specification proved in C19 (parse_pkt). *)
 Definition oflow_total (o : oflows) : flow :=
   fsum (map (fun ko => let '(a, b, c, d) := snd ko in mk_flow a b c d) o).
 
